@@ -135,9 +135,11 @@ private:
 
         void IncompatibleLanguageDialect(const std::string& feature, LanguageDialect::Std expectedStd);
         void IncompatibleLanguageExtension(const std::string& feature, LanguageExtensions::Ext expectedExt);
+        void UnterminatedLiteral(const std::string& literal);
 
         static const std::string ID_of_IncompatibleLanguageDialect;
         static const std::string ID_of_IncompatibleLanguageExtension;
+        static const std::string ID_of_UnterminatedLiteral;
     };
     friend struct DiagnosticsReporter;
 
